@@ -51,7 +51,7 @@ CLAIMED = {
         technique="bounded symbolic execution of the real Go code (go/ssa interpreter, encoding regenerated from /repo on every run) with an SMT solver (z3 5.1.0, linear integer arithmetic back end) deciding every branch and assertion; counterexamples replayed natively"),
     "C07": dict(
         text="Every Go safety condition (index, slice bounds, nil dereference, division, type assertion, channel misuse), every deadlock and every unwinding-limit hit is an obligation on the "
-             "framing paths over arbitrary buffers/streams (GetMessage <= 14 B, stream step <= 10 B, stream <= 7 B; thorough 40/16/10) followed by String() at both log levels, and on the "
+             "framing paths over arbitrary buffers/streams (GetMessage <= 14 B, stream step <= 10 B, stream <= 7 B; thorough 24/16/10) followed by String() at both log levels, and on the "
              "decoder and display paths over CRC-valid 1005/1006/MSM4/MSM7 frames with arbitrary payload bits at every payload length (mask shapes concrete incl. shapes announcing more than fits; cell mask and all other bits symbolic), and over every 30-bit timestamp of every MSM type.",
         note="fmt/hex/time internals are stubs that never panic; inputs beyond the bounds are outside the claim.",
         ref="DESIGN.md section 6, C07"),
